@@ -1276,6 +1276,10 @@ pub fn c05_change_step<S: Src>(_s: &mut S) {
                             for i in 0..outs.len() { add(&mut produced, &outs.get(i).amount()); }
                             add(&mut produced, &Value::new(&body.fee()));
                             consumed.retain(|_, v| *v != 0); produced.retain(|_, v| *v != 0);
+                            let fee_now = u64::from(body.fee());
+                            if (fee_mode == 1 && fee_now < 400_000) || (fee_mode == 2 && fee_now != 300_000) {
+                                failures.push(format!("fee request not honoured (mode {}: 1 = at least 400000, 2 = exactly 300000): the body carries fee {}", fee_mode, fee_now));
+                            }
                             if consumed != produced {
                                 let c0 = consumed.get(&(vec![], vec![])).cloned().unwrap_or(0); let p0 = produced.get(&(vec![], vec![])).cloned().unwrap_or(0);
                                 failures.push(format!("add_change_if_needed reported success but build() is unbalanced (prefer_pure_change={}, fee mode {}, {} policies, {} lovelace in, datum {}, max value size {}): lovelace in {} vs out+fee {}, {} outputs",
@@ -1406,4 +1410,54 @@ pub fn c08_first_input_fee<S: Src>(_s: &mut S) {
     }
     assert!(successes >= 50, "vacuous: {} successes", successes);
     assert!(failures.is_empty(), "{} successful selections do not cover outputs + fee; first: {}", failures.len(), failures[0]);
+}
+
+// ---------------------------------------------------------------- C06: the fee stored by the balancing step covers the final widths
+/// change whose lovelace crosses the CBOR width classes (2^16, 2^32) while the change output's minimum ADA is small
+/// (low coins_per_utxo_byte) or ordinary: after add_change_if_needed reports success the stored fee is at least the
+/// linear fee of the full-size transaction as it now is
+pub fn c06_change_fee_widths<S: Src>(_s: &mut S) {
+    let mut failures: Vec<String> = Vec::new();
+    let mut successes = 0usize;
+    for cpb in [1u64, 10, 100, 1000, 4310] {
+        for lovelace in [3_000_000u64, 70_000_000, 4_300_000_000, 70_000_000_000, 5_000_000_000_000] {
+            // n_policies == 9: one asset entry with quantity 0 (no real change in assets)
+            for n_policies in [0usize, 1, 3, 9] {
+                for prefer_pure in [false, true] {
+                    let cfg = TransactionBuilderConfigBuilder::new()
+                        .fee_algo(&LinearFee::new(&bn(44), &bn(155381))).pool_deposit(&bn(500_000_000)).key_deposit(&bn(2_000_000))
+                        .max_value_size(5000).max_tx_size(16384).coins_per_utxo_byte(&bn(cpb)).prefer_pure_change(prefer_pure).build().unwrap();
+                    let mut tb = TransactionBuilder::new(&cfg);
+                    let mut ma = MultiAsset::new();
+                    for p in 0..(if n_policies == 9 { 1 } else { n_policies }) {
+                        let mut assets = Assets::new();
+                        assets.insert(&AssetName::new(vec![1, 2, p as u8]).unwrap(), &bn(if n_policies == 9 { 0 } else { 5 + p as u64 }));
+                        ma.insert(&ScriptHash::from([4 + p as u8; 28]), &assets);
+                    }
+                    let iv = if n_policies > 0 { Value::new_with_assets(&bn(lovelace), &ma) } else { Value::new(&bn(lovelace)) };
+                    if tb.add_regular_input(&addr(1, 1), &TransactionInput::new(&TransactionHash::from([1u8; 32]), 0), &iv).is_err() { continue; }
+                    let payee = if cpb <= 10 { 5_000 } else { 1_200_000 };
+                    if tb.add_output(&TransactionOutput::new(&addr(1, 2), &Value::new(&bn(payee)))).is_err() { continue; }
+                    match std::panic::catch_unwind(std::panic::AssertUnwindSafe(|| tb.add_change_if_needed(&addr(1, 3)))) {
+                        Err(_) => { failures.push("add_change_if_needed panics".into()); continue; }
+                        Ok(Err(_)) => continue,
+                        Ok(Ok(_)) => (),
+                    }
+                    if let Ok(body) = tb.build() {
+                        let o0 = body.outputs().get(0);
+                        if u64::from(o0.amount().coin()) != payee { failures.push(format!("the payee's output was changed by the balancing step: {} -> {}", payee, o0.amount().coin().to_str())); }
+                    }
+                    let fee = match tb.get_fee_if_set() { Some(f) => u64::from(f), None => continue };
+                    let size = match tb.full_size() { Ok(s) => s as u64, Err(_) => continue };
+                    successes += 1;
+                    let need = 44 * size + 155381;
+                    if fee < need && failures.len() < 5 {
+                        failures.push(format!("coins_per_utxo_byte {}, {} lovelace in, {} policies, prefer_pure_change {}: fee {} below the linear fee {} of the {}-byte signed-size transaction", cpb, lovelace, n_policies, prefer_pure, fee, need, size));
+                    }
+                }
+            }
+        }
+    }
+    assert!(successes >= 60, "vacuous: {} successes", successes);
+    assert!(failures.is_empty(), "{} balanced builders carry a fee below the minimum; first: {}", failures.len(), failures[0]);
 }
